@@ -511,7 +511,7 @@ pub fn run(args: &Args) -> Report {
         ks: if thorough { vec![0, 1, 2] } else { vec![0, 1] },
         env: 0,
         fault: 0,
-        total_wall: Duration::from_secs(if thorough { 1500 } else { 50 }),
+        total_wall: Duration::from_secs(if thorough { 1500 } else { 100 }),
         max_execs_per_case: 20_000,
         required_witnesses: W_RESET_REPLY | W_OVERRUN | W_INVALID_ENDS | W_BYSTANDER_OK | W_COLLISION_REJECTED,
         adaptive: thorough,
